@@ -29,3 +29,6 @@ func (r *Routers) VerifDump() [][3]string {
 	}
 	return out
 }
+
+// VerifDump lists the routes registered at the muxer.
+func (v *Muxer) VerifDump() [][3]string { return v.registryRouter.VerifDump() }
